@@ -336,6 +336,8 @@ def random_constraint(rng, n, r, hidden=None):
 def random_case(rng, max_n=3, max_r=4):
     n = min(rng.choice([0, 1, 2, 2, 2, 3, 3, 3]), max_n)
     m = rng.choice([1, 1, 2])
+    if rng.random() < 0.05:
+        m = rng.choice([10, 11, 12, 13])      # two-digit output indices
     r = min(rng.choice([0, 1, 1, 2, 2, 2, 3, 3, 4]), max_r)
     basis = random_basis(rng)
     ops = basis_ops(basis)
@@ -365,6 +367,11 @@ def random_case(rng, max_n=3, max_r=4):
             cons.append(k)
     cut = rng.choice([len(cons), len(cons), rng.randint(0, len(cons))])
     case = {'tt': tt, 'r': r, 'basis': basis, 'norm': norm, 'pre': cons[:cut], 'post': cons[cut:]}
+    if case['post'] and rng.random() < 0.4:
+        # the same finder object is asked twice: some constraints are imposed only after a first search
+        j = rng.randint(0, len(case['post']) - 1)
+        case['after'] = case['post'][j:]
+        case['post'] = case['post'][:j]
     k = rng.random()
     if k < 0.15:
         case['model'] = 'pyfunc'
@@ -577,9 +584,23 @@ def oracle(case, time_limit=None):
     """THE PROPERTY on the implementation for one case; None = holds, else a message whose part
     before the first ':' classifies the failure"""
     from cirbo.synthesis.exception import NoSolutionError
-    shape = shape_of(case)
+    after = case.get('after') or []
+    if after:
+        case = dict(case)
+        full = dict(case)
+        full['post'] = list(case['post']) + list(after)
+        shape = shape_of(full)
+    else:
+        shape = shape_of(case)
     try:
         f = make_finder(case)
+        if after:
+            try:
+                f.find_circuit()          # first search; its answer is checked by the cases without 'after'
+            except Exception:  # noqa: BLE001
+                pass
+            for k in after:
+                apply_constraint(f, k)
     except Exception as e:  # noqa: BLE001
         return f'constraint-rejected:{type(e).__name__} raised while imposing valid constraints: {e}'
     try:
